@@ -208,6 +208,33 @@ def late_child(b, sym):
     b.require(got == want, "ignored-path-recorded", "stand-alone child run records %s, expected %s" % (got, want))
 
 
+def unicode_pattern(b, sym):
+    """a pattern and the names it matches in decomposed spelling (as macOS volumes deliver names): once the pattern is read back from
+    the previous generation it still excludes the same entries and is written out unchanged"""
+    nfd = sym.choose("spelling", ["Re\u0301el", "R\u00e9el"])  # decomposed | composed
+    b.mkfile("R/a.txt", 1)
+    b.mkfile("R/%s 1.tmp" % nfd, 2)
+    b.mkfile("R/d/%s 2.tmp" % nfd, 3)
+    pat = sym.choose("pattern", ["%s*" % nfd, "%s 1.tmp" % nfd])
+    nested = sym.flag("nested_history_at_d")
+    if nested:
+        r = b.run("create", root="R/d", h=["md5"])
+        b.require(r.exit == 0, "setup-create", str(r))
+    r = b.run("create", root="R", h=["md5"], i=[pat])
+    b.require(r.exit == 0 and r.exc is None, "create-exit-0", str(r))
+    first = b.manifests("R")[-1].ignore
+    for cmd in ("verify", "diff", "create"):
+        r = b.run(cmd, root="R") if cmd != "create" else b.run("create", root="R", h=["md5"])
+        b.require(r.exit == 0 and r.exc is None, "ignored-change-no-failure", "%s with stored pattern %r: exit %s | %s" % (cmd, pat, r.exit, (r.err + r.out)[:3]))
+    m = b.manifests("R")[-1]
+    b.require(m.ignore == first, "pattern-list-persists", "%r vs %r" % (m.ignore, first))
+    got = sorted(rec.path for rec in m.files())
+    want = ["a.txt"] + ([] if nested else (["d/%s 2.tmp" % nfd] if pat.endswith("1.tmp") else [])) if True else None
+    b.require(all(not p.endswith("1.tmp") for p in got), "ignored-path-recorded", "second generation records %s" % got)
+    if pat.endswith("*"):
+        b.require(all(not p.endswith(".tmp") for p in got), "ignored-path-recorded", "second generation records %s" % got)
+
+
 def long_history(b, sym):
     """patterns accumulate over more than nine generations"""
     b.mkfile("R/a.txt", 1)
@@ -252,6 +279,10 @@ def _harnesses(tier):
                 what="a nested history sealed on its own after the parent already carries patterns; a second parent run (with or without new patterns): "
                      "the child generation it writes lists the parent's old and new patterns and the child's own; a later stand-alone child run obeys them",
                 bounds={"parent patterns": "1-2 first, 0-1 later", "child patterns": "0-1"}, outside=out),
+        Harness("c12-unicode", unicode_pattern, frontier=4, budget_s=600,
+                what="a pattern with a non-ASCII character in decomposed or composed spelling, matching names in the same spelling: still in force and "
+                     "unchanged after it was read back from the previous generation (verify / diff / create)",
+                bounds={"spellings": 2, "patterns": 2}, outside=out),
         Harness("c12-long", long_history, frontier=3, budget_s=900,
                 what="12 generations (flat or with a nested history), patterns added in generation 3 and in generation 9 / 10 / 11: lists and exclusions persist",
                 bounds={"generations": 12}, outside=out),
